@@ -77,6 +77,15 @@ CAT = {
     'PMMM_G': (lambda: crystal.Crystal(np.diag([1., 1.15, 1.3]),
                                        [A([sx * 0.11, sy * 0.17, sz * 0.23]) for sx in (1, -1) for sy in (1, -1) for sz in (1, -1)]),
                dict(chem=0, cut=[0.8], vectorbasis=True)),
+    # monoclinic Pm (two species on the mirror plane), rigidly rotated so that the mirror normal is 20 degrees off z and
+    # has an x component: site symmetry m with a generally oriented invariant plane
+    'PM_TILT': (lambda: crystal.Crystal(np.dot(_tilt(), A([[1., 0., 0.3], [0., 1.1, 0.], [0., 0., 1.2]])),
+                                        [[np.zeros(3)], [A([0.3, 0., 0.4])]], ['A', 'B']),
+                dict(chem=0, cut=[1.3], vectorbasis=True, noinversion=True)),
+    # a true doubling of a P1 cell (A and B both repeated), kept non-primitive: the group is {E, t = a/2}
+    'TRIC2NR': (lambda: crystal.Crystal(A([[2., 0.21, 0.17], [0., 1.1, 0.33], [0., 0., 1.23]]),
+                                        [[np.zeros(3), A([0.5, 0., 0.])], [A([0.1, 0.3, 0.4]), A([0.6, 0.3, 0.4])]], ['A', 'B'], noreduce=True),
+                dict(chem=0, cut=[1.01, 1.3], noinversion=True, nonprimitive=True)),
     'RUMPLED2': (lambda: crystal.Crystal(A([[2., 0., 0.], [0., 1., 0.], [0., 0., 10.]]), [A([0., 0., 0.]), A([0.5, 0, 0.1])]),
                  dict(chem=0, cut=[1.5], vectorbasis=True)),
     # ---- hosts with interstitial sublattices
@@ -132,6 +141,16 @@ CAT = {
     'HEXM': (lambda: crystal.Crystal(HEX2, [[np.zeros(2)], [A([0.6, 0.8]), A([0.2, 0.4]), A([0.8, 0.2]), A([0.4, 0.2]), A([0.2, 0.8]), A([0.8, 0.6])]], ['A', 'B']),
              dict(chem=1, cut=[0.36, 0.45], note='B sites on mirror lines at 30,90,150 degrees', vectorbasis=True)),
 }
+
+
+def _tilt():
+    """rotation taking the y axis to n = (sin20 cos30, sin20 sin30, cos20)"""
+    t, f = np.radians(20.), np.radians(30.)
+    n = np.array([np.sin(t) * np.cos(f), np.sin(t) * np.sin(f), np.cos(t)])
+    y = np.array([0., 1., 0.])
+    v = np.cross(y, n); c = float(np.dot(y, n))
+    K = np.array([[0., -v[2], v[1]], [v[2], 0., -v[0]], [-v[1], v[0], 0.]])
+    return np.eye(3) + K + np.dot(K, K) / (1. + c)
 
 
 def get(name):
